@@ -32,22 +32,6 @@ theorem update_lookup {α : Type} (d u : Cfg α) (hw : WF u) (hs : Sub u d) (p :
 theorem update_idempotent {α : Type} (d u : Cfg α) (hw : WF u) : update (update d u) u = update d u :=
   update_idem_aux u hw d
 
-theorem mem_dedup (k : String) (l : List String) : k ∈ dedup l ↔ k ∈ l := by
-  induction l with
-  | nil => simp [dedup]
-  | cons a t ih =>
-    simp only [dedup]
-    split_ifs with h
-    · have h' : a ∈ t := by simpa using h
-      rw [ih]
-      simp only [List.mem_cons]
-      constructor
-      · exact Or.inr
-      · rintro (rfl | h2)
-        · exact h'
-        · exact h2
-    · simp [ih]
-
 /-- **the reported set is `keys(u) \ keys(d)`** (key NAMES at any depth, as the code does) -/
 theorem reported_spec {α : Type} (d u : Cfg α) (k : String) :
     k ∈ reported d u ↔ k ∈ allKeys u ∧ k ∉ allKeys d := by
@@ -257,25 +241,6 @@ structure WellTyped (cfg : Cfg ℝ) : Prop where
   raws : ∀ p ∈ Gen.rawStrPaths, okR cfg p
   nz1 : getF cfg ["solution", "M_s"] ≠ 0
   nz2 : 1 - getF cfg ["solution", "solid_fraction"] ≠ 0
-
-theorem ok_bind {ε α β} (a : α) (f : α → Except ε β) : (Except.ok a >>= f) = f a := rfl
-theorem err_bind {ε α β} (e : ε) (f : α → Except ε β) : ((Except.error e : Except ε α) >>= f) = .error e := rfl
-theorem div_eval {x y : ℝ} (h : y ≠ 0) : Py.div x y = .ok (x / y) := div_ok.mpr ⟨h, rfl⟩
-theorem ite_bind {ε α β} (c : Prop) [Decidable c] (A B : Except ε α) (f : α → Except ε β) :
-    ((if c then A else B) >>= f) = if c then (A >>= f) else (B >>= f) := by split <;> rfl
-
-/-- `none` = returns constants, `some e` = raises `e` -/
-def outcome {α} : Except String α → Option String
-  | .ok _ => none
-  | .error e => some e
-theorem outcome_ok {α} (a : α) : outcome (Except.ok a : Except String α) = none := rfl
-theorem outcome_error {α} (e : String) : outcome (Except.error e : Except String α) = some e := rfl
-theorem outcome_ite {α} (c : Prop) [Decidable c] (A B : Except String α) :
-    outcome (if c then A else B) = if c then outcome A else outcome B := by split <;> rfl
-theorem ok_iff_outcome {α} (X : Except String α) : (∃ c, X = .ok c) ↔ outcome X = none := by
-  cases X <;> simp [outcome]
-theorem error_iff_outcome {α} (X : Except String α) (e : String) : X = .error e ↔ outcome X = some e := by
-  cases X <;> simp [outcome]
 
 theorem enumeration_eval (cfg : Cfg ℝ) (hw : WellTyped cfg) :
     (Supported (enumsOf cfg) → ∃ c, Gen.calculateDerived cfg = .ok c) ∧
